@@ -145,7 +145,39 @@ def _lstsq_weights(prog, rep, qual='als._lstsq'):
                 '' if not miss else 'in the weighted branch %s does not '
                 'depend on w' % miss, line=node.lineno, file=mod.path)
     if found < 2:
-        rep.error('%s: expected two weighted branches, found %d' % (qual, found))
+        rep.unknown('U-weight', qual, 'weighted branches of _lstsq',
+                    'found %d test(s) of the weight argument' % found)
+    # --- the same as a VALUE fact: with a weight vector marked as a scalar of
+    # degree 1, both operands handed to the LAPACK solve carry degree 1 in it
+    # (normal equations A^T W A x = A^T W y, or  W A x = W y), with and
+    # without regularisation; an operand that is KNOWN not to depend on the
+    # weights is the violation
+    from .. import interp as _interp
+    from ..values import ARR as _ARR, FLOAT as _FLOAT, NONE as _NONE
+    from ..poly import Poly as _Poly
+    from fractions import Fraction as _Fr
+    for lam_name, lam in (('lamb given', _FLOAT()), ('lamb=None', _NONE())):
+        I_ = _interp.Interp(prog, {})
+        m_, k_ = _Poly.sym('m'), _Poly.sym('k')
+        w_ = _ARR((m_,), 'f')
+        w_.deg = {'w': _Fr(1)}
+        I_.run_function(fn, {'A': _ARR((m_, k_), 'f'), 'y': _ARR((m_,), 'f'),
+                             'lamb': lam, 'w': w_})
+        sites = [s for s in I_.sites if s.rule == 'U-operands']
+        for s in sites:
+            degs = s.facts['deg']
+            if any(d is None for d in degs):
+                st2, det2 = 'unknown', 'degree of an operand not established'
+            elif all(d.get('w') == 1 for d in degs):
+                st2, det2 = 'ok', ''
+            else:
+                st2, det2 = 'violation', 'with a weight vector the operands ' \
+                    'of the solve have degrees %s in the weights: both the ' \
+                    'matrix and the right-hand side must carry them once' % (
+                        [str(d.get('w', 0)) for d in degs],)
+            rep.add('U-weight', qual, 'operands of the solve carry the '
+                    'weights (%s, line %d)' % (lam_name, s.node.lineno),
+                    st2, det2, line=s.node.lineno, file=mod.path)
     # ridge term:  lstsq(<normal matrix> + lamb * identity, ...)
     st_, detail = 'unknown', 'regularised solve not found'
     for node in ast.walk(fn.node):
